@@ -5,6 +5,9 @@ CHECKS = [
  {"property_id": "C01",
   "text": "Theorems (all closed under the global context): the id is invariant under key permutation at every nesting level (C01_order_independent, via norm_jperm), values that differ as JSON values have different canonical token streams (C01_canon_injective_tokens, unique readability), decimal lexemes are injective, ids are 32 lowercase hex chars, and equal ids of different canonical texts can only be an MD5 collision. The model computes the complete id inside Coq (executable RFC 1321 MD5) and is compared with calc_id/open_job/init/reopen on every generated state point in several key orders and container spellings.",
   "note": "float.__repr__ is an oracle table (Section variable) validated per entry; char-level injectivity of the string escape is not proved (token level is); MD5 collision freedom is named, not assumed; the model is tied to /repo by differential correspondence only."},
+ {"property_id": "C06",
+  "text": "Model of Project._find_job_ids / _SearchIndexer (prefixing, namespace decision, flattening, typed index with Python dict-slot semantics, operator loop, int/float dual lookup, set algebra with early exit) and an independent per-job reference evaluator. Theorems (closed under the global context): the logical structure ($and/$or/$not, early exit) is exact for any per-expression oracle; operator and $exists expressions are exact under NoSlotMerge; implicit equality is exact under NoSlotMerge + probe condition (_partial); locality; $not/$and/$or are complement/intersection/union; the full statement is refuted with machine-checked witnesses (True/1, -1/-1.0) that are a listed known finding. The correspondence runs real projects through Project.find_jobs and evaluates model, reference oracle and known-finding classifier inside Coq.",
+  "note": "re.search is an oracle table; math.isclose is PrimFloat arithmetic after CPython; CPython numeric hash assumed as documented for |int|<2^53; transitivity of Python == on nested values is not proved (hence the probe side condition); the lemma that filters without doc-namespace keys never read documents is not proved (top-level theorem is _partial)."},
 ]
 
 _claimed = {c["property_id"] for c in CHECKS}
